@@ -246,7 +246,7 @@ func genFloat(t *rapid.T) Case {
 }
 
 func TestNumericLiterals(t *testing.T) {
-	vt.Check(t, vt.N(12000, 300000), func(rt *rapid.T) {
+	vt.Check(t, vt.N(12000, 900000), func(rt *rapid.T) {
 		var c Case
 		if rapid.IntRange(0, 2).Draw(rt, "kind") == 0 {
 			c = genFloat(rt)
@@ -318,7 +318,7 @@ func genString(t *rapid.T) Case {
 }
 
 func TestStringLiterals(t *testing.T) {
-	vt.Check(t, vt.N(6000, 150000), func(rt *rapid.T) {
+	vt.Check(t, vt.N(6000, 450000), func(rt *rapid.T) {
 		c := genString(rt)
 		run(rt, c, strings.Contains(c.Src, `\`) || len(c.Src) != len([]rune(c.Src)), true)
 	})
@@ -383,7 +383,7 @@ func identCases(id string) []Case {
 }
 
 func TestIdentifiers(t *testing.T) {
-	vt.Check(t, vt.N(3000, 60000), func(rt *rapid.T) {
+	vt.Check(t, vt.N(3000, 180000), func(rt *rapid.T) {
 		id := genIdent(rt)
 		if isReservedOrSpecial(id) {
 			rt.Skip("reserved word or special name")
